@@ -6,7 +6,7 @@ import itertools
 
 from sa import term as T
 from sa.interp import FuncRef, Interp, RaiseSignal
-from sa.load import AnalysisError, Repo, loc
+from sa.load import AnalysisError, Repo, loc, where_of
 from sa.report import Run
 from sa.scipp_model import Model
 from spec import convert_spec as S
@@ -101,7 +101,7 @@ def run(tier: str) -> Run:
             got = o.value if o.kind == 'return' else ('error' if o.exc_type == 'RuntimeError' else f'raises {o.exc_type}')
             want = S.expected_mode(set(have), origin, target)
             inst = f'mode[{origin}->{target}; energies={list(have)}]'
-            r4.check(got == want, inst, loc(repo.func('core.conversions', '_deduce_energy_mode')),
+            r4.check(got == want, inst, where_of(repo, 'core.conversions', '_deduce_energy_mode', 'deduce_conversion_graph', 'convert'),
                      {'decided': got, 'documented': want}, key=inst)
 
     # ---- R1 / R2 / R3 / R5 over configurations ---------------------------------
